@@ -122,6 +122,97 @@ def t_evaluate(E, params, preexisting, fail):
                     'during evaluation the parameter holds the converted argument')
 
 
+class _ParamBody(object):
+    """Function body that is just a parameter: the expression parser hands back the variable's own
+    value object (Scalars.get: a view on the variable's buffer), as it does for a bare variable reference."""
+    _pyvc_trusted = True
+    def __init__(self, E, ds, name):
+        self.E, self.ds, self.name = E, ds, name
+    def parse(self, stream):
+        r = self.E.call(self.ds.scalars.get, self.name)
+        return r.value
+
+
+def t_identity(E, sigil, preexisting):
+    """DEF FNA(X)=X: the call returns the argument, not what the caller's X held."""
+    ds = E.new(memory_mod.DataSegment, 65534, 3429, 128, 3, False)
+    ds.set_buffers(_Prog())
+    ds.values.set_handler(values.FloatErrorHandler(None))
+    vals = ds.values
+    CLS = {b'%': numbers.Integer, b'!': numbers.Single, b'#': numbers.Double}
+    name = b'X' + sigil
+    if preexisting:
+        old = E.new(CLS[sigil], E.bytes('old', CLS[sigil].size), vals)
+        E.call(ds.scalars.set, name, old)
+        old0 = snapshot(old)
+    else:
+        old0 = [0] * CLS[sigil].size
+    arg = E.new(CLS[sigil], E.bytes('arg', CLS[sigil].size), vals)
+    arg0 = snapshot(arg)
+    stream = Stream(17)
+    fn = E.new(userfunctions.UserFunction, b'FNA' + sigil, stream, [name], ds, _ParamBody(E, ds, name))
+    stream.seek(400)
+    r = E.call(fn.evaluate, iter([arg]))
+    E.prove(not r.raised, 'the call succeeds')
+    if r.raised:
+        return
+    E.prove(type(r.value) is CLS[sigil], 'result of the function type')
+    E.prove(same_bytes(cells(r.value), arg0), 'FNA(a) with body X returns a - the argument, not the caller\'s X')
+    cur = ds.scalars._vars.get(name)
+    E.prove(cur is not None and bool(same_bytes(list(to_cells(cur)), old0)), 'and the caller\'s X is what it was')
+    E.canary(same_bytes(arg0, old0), 'argument equals old value')
+
+
+class _GcBody(object):
+    """Function body during which a garbage collection happens (e.g. FRE("") or a full string space)."""
+    _pyvc_trusted = True
+    def __init__(self, E, ds, result, allocate):
+        self.E, self.ds, self.result, self.allocate = E, ds, result, allocate
+        self.seen = None
+    def parse(self, stream):
+        if self.allocate:
+            # garbage created by the body
+            self.E.call(self.ds.strings.store, b'garbage')
+        self.E.call(self.ds._collect_garbage)
+        v = self.E.call(self.ds.scalars.get, b'X$')
+        self.seen = list(to_cells(self.E.call(v.value.to_str).value))
+        return self.result
+
+
+def t_string_param_gc(E, allocate):
+    """A string parameter's namesake keeps its value when the body triggers a garbage collection."""
+    ds = E.new(memory_mod.DataSegment, 65534, 3429, 128, 3, False)
+    ds.set_buffers(_Prog())
+    ds.values.set_handler(values.FloatErrorHandler(None))
+    vals = ds.values
+    E.call(ds.strings.fix_temporaries)
+    old = E.bytes('old', 4, kind='bytes')
+    E.call(ds.set_variable, b'X$', [], new_string(E, vals, old))
+    E.call(ds.set_variable, b'Y$', [], new_string(E, vals, b'bystander'))
+    E.call(ds.set_variable, b'G$', [], new_string(E, vals, b'dropped'))
+    E.call(ds.set_variable, b'G$', [], vals.new_string())
+    argc = E.bytes('arg', 3, kind='bytes')
+    arg = new_string(E, vals, argc)
+    result = E.new(numbers.Single, E.bytes('result', 4), vals)
+    stream = Stream(17)
+    body = _GcBody(E, ds, result, allocate)
+    fn = E.new(userfunctions.UserFunction, b'FNA!', stream, [b'X$'], ds, body)
+    stream.seek(400)
+    r = E.call(fn.evaluate, iter([arg]))
+    E.prove(not r.raised, 'the call succeeds')
+    if r.raised:
+        return
+    E.prove(body.seen is not None and bool(same_bytes(body.seen, list(to_cells(argc)))), 'during the call X$ is the argument, also after the collection')
+    x = E.call(ds.view_or_create_variable, b'X$', [])
+    xs = E.call(x.value.to_str)
+    E.prove(not xs.raised, 'X$ can be read after the call')
+    if not xs.raised:
+        E.prove(same_bytes(list(to_cells(xs.value)), list(to_cells(old))), 'X$ has the value it had before the call')
+    y = E.call(E.call(ds.view_or_create_variable, b'Y$', []).value.to_str)
+    E.prove(not y.raised and bool(same_bytes(list(to_cells(y.value)), list(b'bystander'))), 'other strings are untouched')
+    E.prove(len(ds.temp_values) == 0, 'temporaries released')
+
+
 def t_recursion(E, params):
     ds = E.new(memory_mod.DataSegment, 65534, 3429, 128, 3, False)
     ds.set_buffers(_Prog())
@@ -137,12 +228,17 @@ def t_recursion(E, params):
     r = E.call(fn.evaluate, iter([a] * len(params)))
     E.prove(r.is_error(BASICError, error.OUT_OF_MEMORY), 'a function that calls itself raises Out of memory')
     E.prove(same_bytes(cells(E.call(ds.scalars.get, b'X!').value), v0), 'and the caller\'s variable is untouched')
+    E.prove(len(ds.temp_values) == 0, 'the evaluated arguments do not stay registered as temporaries')
 
 
 TASKS = [
     Task('UserFunction.evaluate', t_evaluate,
          cases=[{'params': p, 'preexisting': pre, 'fail': f}
                 for p in ((), (b'X',), (b'X', b'Y%'), (b'A#', b'A#')) for pre in (True, False) for f in (True, False)]),
+    Task('UserFunction.evaluate (body is the parameter)', t_identity,
+         cases=[{'sigil': s, 'preexisting': p} for s in (b'%', b'!', b'#') for p in (True, False)]),
+    Task('UserFunction.evaluate (string parameter, collection during the call)', t_string_param_gc,
+         cases=[{'allocate': a} for a in (False, True)]),
     Task('UserFunction.evaluate (recursion)', t_recursion, cases=[{'params': p} for p in ((), (b'X',), (b'X', b'Y%'))]),
 ]
 
@@ -151,4 +247,4 @@ ASSUMPTIONS = [
     'expressions cannot remove a variable or replace its buffer (Scalars.set copies in place - read off the code)',
     'DataSegment, Scalars and the value classes are the real source; the program is a stand-in of fixed size',
 ]
-NOT_COVERED = ['DEF FN parsing (def_fn_), string parameters (string space, C10)']
+NOT_COVERED = ['DEF FN parsing (def_fn_)', 'string-valued functions returning a string built in the body (string space, C10)']
